@@ -699,6 +699,10 @@ class MessageManager(ClientLike):
         Args:
             src_module (Module): Module to send ACK to
         """
+        if src_module.conn not in self.modules:
+            # removed while its request was being processed (a log message could not be written to it)
+            return
+
         header = self.header_cls()
         header.msg_type = cd.MT_ACKNOWLEDGE
         header.send_time = time.perf_counter()
